@@ -456,6 +456,12 @@ def normalise(program):
                 skipped.append("walrus %s: %s" % (f.qualname, type(e).__name__))
                 continue
 
+    stats["named_groups_numbered"] = 0
+    for m in program.modules.values():
+        try:
+            stats["named_groups_numbered"] += inline.numbered_groups(m)
+        except Exception as e:
+            skipped.append("groups %s: %s" % (m.name, type(e).__name__))
     stats["logging_calls_dropped"] = 0
     for m in program.modules.values():
         loggers = set()
